@@ -1,4 +1,5 @@
 /* Appended to the generated C for CBMC: the input array and its cursor. */
+#include "vp_cdefs.h"
 #ifndef VP_IN_MAX
 #define VP_IN_MAX 256
 #endif
